@@ -396,6 +396,17 @@ func c03Seeds(c *Config) (seeds [][]byte, small [][]byte) {
 			seeds = append(seeds, refcodec.EncodeMessage(hd[0], []refcodec.Node{{Code: code, Flags: 0xC0, Vendor: 4242, Payload: inner}, atoms.RefNodes(core[:1])[0]}))
 		}
 	}
+	// text values whose byte length and character count fall on different sides of typical
+	// display limits (multi-byte UTF-8: 33..60 characters in 65..120 bytes)
+	for _, k := range []atoms.Kind{atoms.KUTF8, atoms.KOctet, atoms.KIdent, atoms.KURI, atoms.KIPFilter} {
+		d, ok := c.A.Plain[k]
+		if !ok {
+			continue
+		}
+		for _, txt := range []string{strings.Repeat("\u0436", 40), strings.Repeat("\u4e16", 30), strings.Repeat("\u03b1", 33), strings.Repeat("\u00e9", 60), strings.Repeat("\U0001F600", 17), "ab" + strings.Repeat("\u0436", 32)} {
+			seeds = append(seeds, refcodec.EncodeMessage(hd[0], []refcodec.Node{{Code: d.Code, Flags: mflag(d.Must), Payload: []byte(txt)}}))
+		}
+	}
 	seeds = append(seeds, enc(hd[0], core), enc(hd[1], nil))
 	small = append(small, enc(hd[0], core[:3]), enc(hd[0], []atoms.N{firstOfKind[0]}))
 	return
